@@ -373,6 +373,7 @@ def classify(src, r):
 def run(ctx, model_ok):
     rng = ctx.rng
     thorough = ctx.tier == "thorough"
+    L.run_stream(ctx, "corpus", L.corpus_scripts("C12"), model_ok, classify=classify)
     if thorough:
         perms, groups = perm_scripts(rng, [0, 1, 2, 3, 4, 5], 6, 14)
         nhist, maxops = 1200000, 7
